@@ -1,91 +1,17 @@
 (* TparseSafety.v -- C01 for the parser model: the main loop of Template.hpp::parse
    (TparseModel.v) never reads outside the text, never takes Last() of an empty
    array, never reads a tag record as another kind, never subtracts below zero
-   and terminates within its fuel, for EVERY text, width and number scanner --
-   with ONE exception that is not excluded here: the IsEqual inside
-   checkLoopVariable (site 10), see [parse_safe_partial]. *)
+   and terminates within its fuel, for EVERY text, width and number scanner
+   ([parse_safe]).  The invariant [Inv]: every array on the parent_storage stack
+   ends in a tag that owns an open child array (so Last() exists and is of the
+   kind that was pushed); the value name of every loop in the loop_tag chain (and
+   in the Parent chain of every open loop) lies inside the text and contains
+   neither '>' nor '}'; the finder cursor is inside the text and at least one
+   token length from its start. *)
 From Coq Require Import NArith ZArith List Bool Arith Lia ZifyBool ZifyNat ZifyN.
-From Qv Require Import gen.Tables_tmpl gen.Tables_expr gen.Tables_tparse FinderModel FinderProofs TparseModel TparseProofs.
+From Qv Require Import gen.Tables_tmpl gen.Tables_expr gen.Tables_tparse FinderModel FinderProofs TparseModel TparseFinder TparseProofs.
 Import ListNotations.
 Ltac Zify.zify_post_hook ::= Z.div_mod_to_equations.
-
-(* ------------------------------------------------------------------ *)
-(* Finder: a match advances the cursor by at least the length of the matched token *)
-Definition toklen (m : N) : nat :=
-  match m with
-  | 1%N => 1 | 2%N => 5 | 3%N => 5 | 4%N => 6 | 5%N => 6 | 6%N => 3 | 7%N => 5 | 8%N => 7 | 9%N => 3 | 10%N => 5 | 11%N => 5 | _ => 0
-  end.
-
-Lemma toklen_ids : forall m, 1 <= toklen m -> In m [1; 2; 3; 4; 5; 6; 7; 8; 9; 10; 11]%N.
-Proof.
-  intros m H. unfold toklen in H.
-  destruct m as [|p]; [lia|].
-  destruct p as [p|p|]; try destruct p as [p|p|]; try destruct p as [p|p|]; try destruct p as [p|p|];
-    try lia; cbn; tauto.
-Qed.
-
-Section FinderLen.
-  Variables (first_chars : list N) (single : N) (groups : list (list (N * list N))) (content : list N).
-
-  Lemma try_group_len : forall g o id off',
-    try_group content o g = GMatch id off' -> exists word, In (id, word) g /\ o + length word <= off'.
-  Proof.
-    intros g; induction g as [|[id0 word] r IH]; intros o id off' H; [discriminate H|].
-    assert (Hr : try_group content o r = GMatch id off' ->
-                 exists word', In (id, word') ((id0, word) :: r) /\ o + length word' <= off').
-    { intros H'. destruct (IH _ _ _ H') as [w' [Hi Hl]]. exists w'. split; [right; exact Hi|exact Hl]. }
-    rewrite try_group_cons in H.
-    destruct (o + (length word - 1) <? length content); [|auto].
-    destruct (nth_error content (o + (length word - 1))) as [c|]; [|discriminate H].
-    destruct (N.eqb c (last word 0%N)); [|auto].
-    destruct (match_mid content (S (length word - 1)) o (o + (length word - 1)) word) as [r'|]; [|discriminate H].
-    destruct (r' =? o + (length word - 1)); [|auto].
-    injection H as <- <-. exists word. split; [left; reflexivity|lia].
-  Qed.
-
-  Lemma nth_groups_in : forall g (x : N * list N), In x (nth g groups []) -> In x (concat groups).
-  Proof.
-    intros g x H. destruct (nth_in_or_default g groups []) as [Hin|Hd].
-    - apply in_concat. exists (nth g groups []). split; assumption.
-    - rewrite Hd in H. destruct H.
-  Qed.
-
-  Lemma next_go_len : forall fuel o m off',
-    next_go first_chars single groups content fuel o = FOk m off' ->
-    (m = 0%N /\ o <= off' /\ length content <= off') \/ (m = 1%N /\ o + 1 <= off') \/
-    (exists word, In (m, word) (concat groups) /\ o + 1 + length word <= off').
-  Proof.
-    intros fuel; induction fuel as [|k IH]; intros o m off' H; [discriminate H|].
-    assert (Hr : next_go first_chars single groups content k (S o) = FOk m off' ->
-                 (m = 0%N /\ o <= off' /\ length content <= off') \/ (m = 1%N /\ o + 1 <= off') \/
-                 (exists word, In (m, word) (concat groups) /\ o + 1 + length word <= off')).
-    { intros H'. destruct (IH _ _ _ H') as [[? [? ?]]|[[? ?]|[wd [? ?]]]].
-      - left; split; [assumption|lia].
-      - right; left; split; [assumption|lia].
-      - right; right. exists wd. split; [assumption|lia]. }
-    rewrite next_go_S in H.
-    destruct (Nat.ltb_spec o (length content)).
-    - destruct (nth_error content o) as [c|]; [|discriminate H].
-      destruct (index_of c first_chars 0) as [g|].
-      + destruct (try_group content (S o) (nth g groups [])) as [id off''| |] eqn:Eg.
-        * injection H as <- <-. destruct (try_group_len _ _ _ _ Eg) as [wd [Hi Hl]].
-          right; right. exists wd. split; [apply nth_groups_in with (g := g); exact Hi|lia].
-        * auto.
-        * discriminate H.
-      + destruct (N.eqb c single); [|auto].
-        injection H as <- <-. right; left. split; [reflexivity|lia].
-    - injection H as <- <-. left. split; [reflexivity|lia].
-  Qed.
-End FinderLen.
-
-Lemma table_toklen : forall m word, In (m, word) (concat finder_groups_c8) -> 1 + length word = toklen m.
-Proof.
-  intros m word H. cbn in H.
-  repeat (destruct H as [H|H]; [injection H as <- <-; reflexivity|]). destruct H.
-Qed.
-
-Lemma next_w_c8 : forall w content o, next_w w content o = next finder_first_chars_c8 finder_single_char_c8 finder_groups_c8 content o.
-Proof. intros w content o. destruct w as [|[[p|p|]|[p|p|]|]]; reflexivity. Qed.
 
 Section Safety.
   Variable numf : list N -> N * N * nat.
@@ -98,25 +24,37 @@ Section Safety.
   Ltac pbind X := apply post_bind with (Q := X).
 
   (* result of Next() from cursor o *)
+  (* "<loop" stands before the cursor after a LoopID match: no '>' and no '}' in it *)
+  Definition headfree (fm : N) (fo : nat) : Prop :=
+    fm = 7%N -> forall i, fo - 5 <= i < fo -> exists c, nth_error content i = Some c /\ clean c.
   Definition stepok (o : nat) (mo : N * nat) : Prop :=
     o <= snd mo /\ (o <= len -> snd mo <= len) /\
-    ((fst mo = 0%N /\ len <= snd mo) \/ (snd mo <= len /\ o + toklen (fst mo) <= snd mo /\ 1 <= toklen (fst mo))).
+    ((fst mo = 0%N /\ len <= snd mo) \/ (snd mo <= len /\ o + toklen (fst mo) <= snd mo /\ 1 <= toklen (fst mo))) /\
+    (fst mo = 1%N -> nth_error content (snd mo - 1) = Some 125%N) /\ headfree (fst mo) (snd mo).
+  (* the only closing brace between the old and the new cursor is the matched one *)
+  Definition onlybrace (o : nat) (mo : N * nat) : Prop :=
+    forall i, o <= i < snd mo -> nth_error content i = Some 125%N -> fst mo = 1%N /\ S i = snd mo.
+
+Lemma fnext_good2 : forall o, good (fun mo => stepok o mo /\ onlybrace o mo) (fnext w content o).
+  Proof.
+    intros o. unfold fnext.
+    destruct (next_w w content o) as [m o'|] eqn:E.
+    2:{ exfalso. rewrite next_w_c8 in E. revert E. apply next_safe. }
+    cbn [good]. unfold stepok, onlybrace, headfree. cbn [fst snd].
+    destruct (Nat.le_gt_cases o len) as [Hle|Hgt].
+    - destruct (next_w_facts _ _ _ _ _ Hle E) as (F1 & F2 & F3 & F4 & F5 & F6).
+      split; [split; [lia|split; [lia|split; [|split; [exact F5|]]]]|exact F4].
+      + destruct (N.eq_dec m 0) as [Ez|Ez]; [left; split; [exact Ez|apply F2; exact Ez]|right].
+        destruct (F3 Ez). lia.
+      + intros E7 i Hi. destruct (F6 E7 i Hi) as (c & Hc & C1 & C2). exists c. split; [exact Hc|split; assumption].
+    - rewrite next_w_c8 in E. unfold next_c8 in E. rewrite next_unfold in E. replace (len - o) with 0 in E by lia.
+      rewrite next_go_S in E. destruct (Nat.ltb_spec o len); [lia|]. injection E as <- <-.
+      split; [split; [lia|split; [lia|split; [left; split; [reflexivity|lia]|split; [discriminate|discriminate]]]]|].
+      intros i Hi; lia.
+  Qed.
 
   Lemma fnext_good : forall o, good (stepok o) (fnext w content o).
-  Proof.
-    intros o. unfold fnext. rewrite next_w_c8.
-    destruct (next finder_first_chars_c8 finder_single_char_c8 finder_groups_c8 content o) as [m o'|] eqn:E;
-      [|exfalso; revert E; apply next_safe].
-    cbn. unfold stepok. cbn [fst snd].
-    destruct (Nat.le_gt_cases o len) as [Hle|Hgt].
-    - destruct (next_progress _ _ _ _ _ _ _ Hle E) as [Hb Hs].
-      rewrite next_unfold in E. destruct (next_go_len _ _ _ _ _ _ _ _ E) as [[Hm [Ho Hl]]|[[Hm Ho]|[wd [Hi Ho]]]].
-      + split; [lia|split; [lia|left; split; [exact Hm|exact Hl]]].
-      + subst m. split; [lia|split; [lia|right]]. cbn. lia.
-      + apply table_toklen in Hi. split; [lia|split; [lia|right]]. lia.
-    - rewrite next_unfold in E. replace (len - o) with 0 in E by lia. rewrite next_go_S in E.
-      destruct (Nat.ltb_spec o len); [lia|]. injection E as <- <-. split; [lia|split; [lia|left; split; [reflexivity|lia]]].
-  Qed.
+  Proof. intros o. eapply good_weaken; [apply fnext_good2|]. intros mo [H _]. exact H. Qed.
 
   (* ---------------------------------------------------------------- *)
   (* list helpers *)
@@ -154,7 +92,8 @@ Section Safety.
   (* the last element of an array on the stack: a tag that owns an open child array *)
   Definition container_ok (fo : nat) (t : tag) : Prop :=
     match t with
-    | PSVar _ _ _ _ | PLoop _ _ => True
+    | PSVar _ _ _ _ => True
+    | PLoop l _ => Forall (li_ok content) (l_parent l)
     | PIIf i _ _ => i_off i <= fo
     | PIf _ _ cases => cases <> []
     | _ => False
@@ -165,14 +104,28 @@ Section Safety.
   Definition structok (fo : nat) (stack : list (list tag)) (cur : list tag) : Prop :=
     Forall (open_ok fo) stack /\ Forall (Forall leaf_ok) stack /\ Forall leaf_ok cur.
 
+  (* loop_tag is exactly the chain of the loops whose storage is on the stack *)
+  Definition frame_loop (top : list tag) : list loopinfo :=
+    match split_last top with Some (_, PLoop l _) => [info_of l] | _ => [] end.
+  Fixpoint open_loops (stack : list (list tag)) : list loopinfo :=
+    match stack with [] => [] | top :: rest => frame_loop top ++ open_loops rest end.
+  Fixpoint parents_ok (stack : list (list tag)) : Prop :=
+    match stack with
+    | [] => True
+    | top :: rest =>
+      match split_last top with Some (_, PLoop l _) => l_parent l = open_loops rest | _ => True end /\ parents_ok rest
+    end.
+  Definition chainok (stack : list (list tag)) (chain : list loopinfo) : Prop :=
+    chain = open_loops stack /\ parents_ok stack /\ Forall (li_ok content) chain.
+
   Definition finok (fm : N) (fo : nat) : Prop :=
-    fm = 0%N \/ (fo <= len /\ toklen fm <= fo /\ 1 <= toklen fm).
+    fm = 0%N \/ (fo <= len /\ toklen fm <= fo /\ 1 <= toklen fm /\ headfree fm fo).
 
   Definition Inv (st : pstate) : Prop :=
-    finok (ps_fm st) (ps_fo st) /\ structok (ps_fo st) (ps_stack st) (ps_cur st).
+    finok (ps_fm st) (ps_fo st) /\ structok (ps_fo st) (ps_stack st) (ps_cur st) /\ chainok (ps_stack st) (ps_chain st).
 
   Lemma container_ok_mono : forall fo fo' t, fo <= fo' -> container_ok fo t -> container_ok fo' t.
-  Proof. intros fo fo' t H. destruct t; cbn; auto. lia. Qed.
+  Proof. intros fo fo' t H. destruct t; cbn [container_ok]; auto. lia. Qed.
   Lemma open_ok_mono : forall fo fo' top, fo <= fo' -> open_ok fo top -> open_ok fo' top.
   Proof. intros fo fo' top H (i & t & E & C). exists i, t. split; [exact E|eapply container_ok_mono; eassumption]. Qed.
   Lemma structok_mono : forall fo fo' stack cur, fo <= fo' -> structok fo stack cur -> structok fo' stack cur.
@@ -182,7 +135,10 @@ Section Safety.
   Qed.
 
   Lemma stepok_finok : forall o mo, stepok o mo -> finok (fst mo) (snd mo).
-  Proof. unfold stepok, finok. intros o mo [H1 [H0 [[H2 _]|H2]]]; [left; exact H2|right; lia]. Qed.
+  Proof.
+    unfold stepok, finok. intros o mo (H1 & H0 & [[H2 _]|H2] & _ & H4); [left; exact H2|right].
+    repeat split; try lia. exact H4.
+  Qed.
 
   (* what one iteration establishes *)
   Definition stepped (st st' : pstate) : Prop :=
@@ -190,12 +146,12 @@ Section Safety.
 
   Lemma stepped_of : forall st stack cur child chain o mo,
     ps_fo st <= o ->
-    stepok o mo -> structok (snd mo) stack cur ->
+    stepok o mo -> structok (snd mo) stack cur -> chainok stack chain ->
     stepped st (mkS (snd mo) (fst mo) stack cur child chain).
   Proof.
-    intros st stack cur child chain o mo Ho Hs Hst. unfold stepped, Inv. cbn [ps_fo ps_fm ps_stack ps_cur].
-    split; [split; [eapply stepok_finok; exact Hs|exact Hst]|].
-    destruct Hs as [H1 [H0 [[H2 _]|H2]]].
+    intros st stack cur child chain o mo Ho Hs Hst Hch. unfold stepped, Inv. cbn [ps_fo ps_fm ps_stack ps_cur ps_chain].
+    split; [split; [eapply stepok_finok; exact Hs|split; [exact Hst|exact Hch]]|].
+    destruct Hs as (H1 & H0 & [[H2 _]|H2] & _).
     - split; [lia|left; exact H2].
     - split; [lia|right; lia].
   Qed.
@@ -218,14 +174,14 @@ Section Safety.
     writeback site (init ++ [t]) cur = Ok (init ++ [plug t cur]).
   Proof.
     intros site fo init t cur H. unfold writeback. rewrite split_last_app.
-    destruct t as [| | | | | |o e cases]; cbn in H; try contradiction; try reflexivity.
+    destruct t as [| | | | | |o e cases]; cbn [container_ok] in H; try contradiction; try reflexivity.
     cbn [plug]. destruct (split_last cases) as [[ci [co ce cc sb]]|] eqn:E; [reflexivity|].
     apply split_last_none in E. contradiction.
   Qed.
 
   Lemma plug_leaf_ok : forall fo t cur, container_ok fo t -> leaf_ok (plug t cur).
   Proof.
-    intros fo t cur H. destruct t as [| | | | | |o e cases]; cbn in H; try contradiction; try exact I.
+    intros fo t cur H. destruct t as [| | | | | |o e cases]; cbn [container_ok] in H; try contradiction; try exact I.
     cbn [plug]. destruct (split_last cases) as [[ci [co ce cc sb]]|]; exact I.
   Qed.
 
@@ -235,26 +191,73 @@ Section Safety.
     ps_fo st <= len /\ toklen (ps_fm st) <= ps_fo st /\ 1 <= toklen (ps_fm st) /\
     Forall (open_ok (ps_fo st)) (ps_stack st) /\ Forall (Forall leaf_ok) (ps_stack st) /\ Forall leaf_ok (ps_cur st).
   Proof.
-    intros st [[H0|H] (H1 & H2 & H3)] Hm; [contradiction|]. repeat split; try assumption; lia.
+    intros st [[H0|H] ((H1 & H2 & H3) & _)] Hm; [contradiction|]. repeat split; try assumption; lia.
   Qed.
+  Lemma inv_chain : forall st, Inv st -> Forall (li_ok content) (ps_chain st).
+  Proof. intros st (_ & _ & _ & _ & H). exact H. Qed.
+  Lemma inv_chainok : forall st, Inv st -> chainok (ps_stack st) (ps_chain st).
+  Proof. intros st (_ & _ & H). exact H. Qed.
+
+  (* pushing / popping frames *)
+  Lemma chainok_push : forall stack chain cur t,
+    chainok stack chain -> (forall l sb, t <> PLoop l sb) -> chainok ((cur ++ [t]) :: stack) chain.
+  Proof.
+    intros stack chain cur t (E & P & F) Hn. unfold chainok. cbn [open_loops parents_ok]. unfold frame_loop.
+    rewrite split_last_app. destruct t; try (split; [exact E|split; [split; [exact I|exact P]|exact F]]).
+    exfalso. eapply Hn. reflexivity.
+  Qed.
+  Lemma chainok_push_loop : forall stack chain cur l sb,
+    chainok stack chain -> l_parent l = chain -> li_ok content (info_of l) ->
+    chainok ((cur ++ [PLoop l sb]) :: stack) (info_of l :: chain).
+  Proof.
+    intros stack chain cur l sb (E & P & F) Hp Hl. unfold chainok. cbn [open_loops parents_ok]. unfold frame_loop.
+    rewrite split_last_app. split; [cbn; rewrite E; reflexivity|split; [split; [rewrite Hp; exact E|exact P]|constructor; assumption]].
+  Qed.
+  Lemma chainok_pop : forall init t rest chain,
+    chainok ((init ++ [t]) :: rest) chain -> (forall l sb, t <> PLoop l sb) -> chainok rest chain.
+  Proof.
+    intros init t rest chain (E & P & F) Hn. unfold chainok in *. cbn [open_loops parents_ok] in *. unfold frame_loop in *.
+    rewrite split_last_app in *. destruct P as [_ P].
+    destruct t; try (split; [exact E|split; [exact P|exact F]]). exfalso. eapply Hn. reflexivity.
+  Qed.
+  Lemma chainok_pop_loop : forall init l sb rest chain,
+    chainok ((init ++ [PLoop l sb]) :: rest) chain -> chainok rest (l_parent l).
+  Proof.
+    intros init l sb rest chain (E & P & F). unfold chainok in *. cbn [open_loops parents_ok] in *. unfold frame_loop in *.
+    rewrite split_last_app in *. destruct P as [Hp P]. cbn in E. subst chain. inversion F; subst.
+    split; [exact Hp|split; [exact P|rewrite Hp; assumption]].
+  Qed.
+  Lemma chainok_swap : forall init t t' rest chain,
+    chainok ((init ++ [t]) :: rest) chain -> (forall l sb, t <> PLoop l sb) -> (forall l sb, t' <> PLoop l sb) ->
+    chainok ((init ++ [t']) :: rest) chain.
+  Proof.
+    intros init t t' rest chain H Hn Hn'. apply chainok_push; [eapply chainok_pop; eassumption|exact Hn'].
+  Qed.
+  Lemma inv_headfree : forall st, Inv st -> ps_fm st <> 0%N -> headfree (ps_fm st) (ps_fo st).
+  Proof. intros st [[H0|(_ & _ & _ & H)] _] Hm; [contradiction|exact H]. Qed.
 
   Lemma stepped_with_finder : forall st stack cur child chain o mo,
-    ps_fo st <= o -> stepok o mo -> structok o stack cur ->
+    ps_fo st <= o -> stepok o mo -> structok o stack cur -> chainok stack chain ->
     stepped st (mkS (snd mo) (fst mo) stack cur child chain).
   Proof.
-    intros st stack cur child chain o mo Ho Hs Hst.
-    apply stepped_of with (o := o); [exact Ho|exact Hs|].
+    intros st stack cur child chain o mo Ho Hs Hst Hch.
+    apply stepped_of with (o := o); [exact Ho|exact Hs| |exact Hch].
     eapply structok_mono; [|exact Hst]. destruct Hs as [H _]. exact H.
   Qed.
 
   (* finder.Next() at the end of a case *)
+  Definition rested (st st1 : pstate) : Prop :=
+    structok (ps_fo st1) (ps_stack st1) (ps_cur st1) /\ ps_fo st <= ps_fo st1 /\ chainok (ps_stack st1) (ps_chain st1).
+
+  Lemma rested_refl : forall st, Inv st -> rested st st.
+  Proof. intros st (_ & H & Hc). split; [exact H|split; [lia|exact Hc]]. Qed.
+
   Lemma then_next_post : forall st r,
-    post (fun st1 => structok (ps_fo st1) (ps_stack st1) (ps_cur st1) /\ ps_fo st <= ps_fo st1) r ->
-    post (stepped st) (then_next w content r).
+    post (rested st) r -> post (stepped st) (then_next w content r).
   Proof.
     intros st r Hr. unfold then_next.
-    pbind (fun st1 => structok (ps_fo st1) (ps_stack st1) (ps_cur st1) /\ ps_fo st <= ps_fo st1); [exact Hr|].
-    intros st1 [Hs Ho].
+    pbind (rested st); [exact Hr|].
+    intros st1 (Hs & Ho & Hc).
     pbind (stepok (ps_fo st1)); [apply good_post, fnext_good|]. intros mo Hmo.
     cbn [post]. unfold with_finder. apply stepped_with_finder with (o := ps_fo st1); assumption.
   Qed.
@@ -267,32 +270,52 @@ Section Safety.
     intros mk st Hmk HI Hk.
     assert (Hm : ps_fm st <> 0%N) by (intros E; rewrite E in Hk; discriminate Hk).
     destruct (inv_parts st HI Hm) as (Hfo & Htl & _ & Hs1 & Hs2 & Hs3).
+    pose proof (inv_chain st HI) as Hch.
     unfold do_var.
     pbind (stepok (ps_fo st)); [apply good_post, fnext_good|]. intros mo Hmo.
     destruct (N.eqb_spec (fst mo) tpp_LineEndID) as [E|E].
-    - destruct Hmo as (Hm1 & Hm0 & [[Hz _]|Hm2]); [rewrite Hz in E; discriminate E|].
-      rewrite E in Hm2. cbn in Hm2.
+    - pose proof Hmo as Hmo_all.
+      destruct Hmo as (Hm1 & Hm0 & [[Hz _]|Hm2] & Hbrace & _); [rewrite Hz in E; discriminate E|].
+      rewrite E in Hm2. cbn in Hm2. specialize (Hbrace E).
       pbind (fun d => d = snd mo - ps_fo st); [apply good_post, csub_good; lia|]. intros d ->.
       pbind (fun d1 : nat => True); [apply good_post; eapply good_weaken; [apply csub_good; unfold tpp_InLineSuffixLength; lia|auto]|].
       intros d1 _.
       pbind (fun cur' => Forall leaf_ok cur').
       { destruct (N.eqb (t8 d1) 0); [exact Hs3|].
-        pbind (fun v' => v_off v' = ps_fo st); [eapply post_weaken; [apply check_loop_variable_post|]; cbn; intros a [Ha _]; exact Ha|].
+        pbind (fun v' => v_off v' = ps_fo st).
+        { eapply post_weaken; [apply check_loop_variable_post; [exact Hch|]|cbn; intros a [Ha _]; exact Ha].
+          cbn [v_off]. exists (snd mo - 1), 125%N. split; [lia|split; [exact Hbrace|right; reflexivity]]. }
         intros v Hv. cbn [post]. apply Forall_snoc. split; [exact Hs3|apply Hmk; rewrite Hv; unfold tpp_VariablePrefixLength; lia]. }
       intros cur' Hcur.
       pbind (stepok (snd mo)); [apply good_post, fnext_good|]. intros mo2 Hmo2.
       cbn [post]. unfold with_finder, with_cur. cbn [ps_stack ps_cur ps_child ps_chain].
-      apply stepped_with_finder with (o := snd mo); [lia|exact Hmo2|].
+      apply stepped_with_finder with (o := snd mo); [lia|exact Hmo2| |exact (inv_chainok st HI)].
       eapply structok_mono with (fo := ps_fo st); [lia|]. repeat split; assumption.
     - cbn [post]. unfold with_finder.
-      apply stepped_with_finder with (o := ps_fo st); [lia|exact Hmo|]. repeat split; assumption.
+      apply stepped_with_finder with (o := ps_fo st); [lia|exact Hmo| |exact (inv_chainok st HI)]. repeat split; assumption.
   Qed.
+
+  Lemma stepok_chain : forall o0 mo1 mo2, stepok o0 mo1 -> stepok (snd mo1) mo2 -> o0 <= len -> stepok o0 mo2.
+  Proof.
+    intros o0 mo1 mo2 (Ha & Hb & Hc & _) (Ha' & Hb' & Hc' & Hd' & He') Ho.
+    split; [lia|split; [intros; apply Hb'; apply Hb; assumption|split; [|split; assumption]]].
+    destruct Hc' as [Hz|Hn]; [left; exact Hz|right; lia].
+  Qed.
+  Lemma stepok_nz : forall o mo, stepok o mo -> fst mo <> 0%N ->
+    snd mo <= len /\ o + toklen (fst mo) <= snd mo /\ 1 <= toklen (fst mo).
+  Proof. intros o mo (_ & _ & [[Hz _]|Hc] & _) Hn; [contradiction|exact Hc]. Qed.
+  Lemma stepok_z : forall o mo, stepok o mo -> fst mo = 0%N -> len <= snd mo.
+  Proof.
+    intros o mo (_ & _ & [[_ Hl]|(H1 & H2 & H3)] & _) Hz; [exact Hl|]. rewrite Hz in H3. cbn in H3. lia.
+  Qed.
+  Lemma stepok_le : forall o mo, stepok o mo -> o <= snd mo.
+  Proof. intros o mo (H & _). exact H. Qed.
 
   (* ---- math ---- *)
   Lemma math_scan_good : forall fuel o0 mo sv,
     stepok o0 mo -> o0 <= len ->
     (fst mo = 0%N -> 1 <= fuel) -> (fst mo <> 0%N -> 2 + (len - snd mo) <= fuel) ->
-    good (fun r => stepok o0 (snd r) /\ (fst r = 0 \/ (1 <= fst r /\ fst r <= len)))
+    good (fun r => stepok o0 (snd r) /\ (fst r = 0 \/ (1 <= fst r /\ fst r <= len /\ o0 <= fst r /\ fnext w content (fst r) = Ok (snd r))))
          (math_scan w content fuel mo sv).
   Proof.
     intros fuel; induction fuel as [|f IH]; intros o0 mo sv Hmo Ho0 Hf0 Hf1.
@@ -303,31 +326,23 @@ Section Safety.
              (fst (fst r) <> 0%N -> fst mo <> 0%N)).
     { destruct (N.ltb (fst mo) tpp_MathID && negb (N.eqb (fst mo) tpp_LineEndID)).
       - gbind (stepok (snd mo)); [apply fnext_good|]. intros mo' Hmo'. cbn [good fst snd].
-        destruct Hmo as (Ha & Hb & Hc). destruct Hmo' as (Ha' & Hb' & Hc').
-        split; [|split; [lia|]].
-        + split; [lia|split; [intros; apply Hb'; apply Hb; assumption|]].
-          destruct Hc' as [Hz|Hn]; [left; exact Hz|right; lia].
-        + intros Hn Hz. destruct Hc as [[_ Hl]|Hc]; [|destruct Hc as (Hc1 & Hc2 & Hc3); rewrite Hz in Hc3; cbn in Hc3; lia].
-          destruct Hc' as [[Hz' _]|Hc']; [contradiction|]. lia.
+        split; [eapply stepok_chain; eassumption|split; [apply (stepok_le _ _ Hmo')|]].
+        intros Hn Hz. pose proof (stepok_z _ _ Hmo Hz). destruct (stepok_nz _ _ Hmo' Hn). lia.
       - cbn [good fst snd]. split; [exact Hmo|split; [lia|auto]]. }
     intros [mo1 sv1] (Hmo1 & Hle & Hnz). cbn [fst snd] in *.
     destruct (N.eqb_spec (fst mo1) tpp_LineEndID) as [E|E]; [|cbn; split; [exact Hmo1|left; reflexivity]].
     assert (Hn1 : fst mo1 <> 0%N) by (rewrite E; discriminate).
     assert (Hb1 : snd mo1 <= len /\ 1 <= snd mo1).
-    { destruct Hmo1 as (_ & _ & [[Hz _]|Hc]); [contradiction|]. rewrite E in Hc. cbn in Hc. lia. }
+    { destruct (stepok_nz _ _ Hmo1 Hn1) as (H1 & H2 & H3). rewrite E in H2. cbn in H2. lia. }
     specialize (Hf1 (Hnz Hn1)).
     destruct sv1 as [|sv'].
-    - gbind (stepok (snd mo1)); [apply fnext_good|]. intros mo2 Hmo2. cbn [good fst snd].
-      split; [|right; lia].
-      destruct Hmo1 as (Ha & Hb & Hc). destruct Hmo2 as (Ha' & Hb' & Hc').
-      split; [lia|split; [intros; apply Hb'; lia|]].
-      destruct Hc' as [Hz|Hn]; [left; exact Hz|right; lia].
+    - destruct (fnext w content (snd mo1)) as [mo2|err] eqn:Efn; [|exfalso; pose proof (fnext_good (snd mo1)) as G; rewrite Efn in G; exact G].
+      assert (Hmo2 : stepok (snd mo1) mo2) by (pose proof (fnext_good (snd mo1)) as G; rewrite Efn in G; exact G).
+      cbn [bind good fst snd].
+      split; [eapply stepok_chain; eassumption|right]. split; [lia|split; [lia|split; [apply (stepok_le _ _ Hmo1)|exact Efn]]].
     - gbind (stepok (snd mo1)); [apply fnext_good|]. intros mo2 Hmo2.
-      apply IH; [| exact Ho0 | intros _; lia |].
-      + destruct Hmo1 as (Ha & Hb & Hc). destruct Hmo2 as (Ha' & Hb' & Hc').
-        split; [lia|split; [intros; apply Hb'; lia|]].
-        destruct Hc' as [Hz|Hn]; [left; exact Hz|right; lia].
-      + intros Hn2. destruct Hmo2 as (Ha' & Hb' & [[Hz _]|Hc']); [contradiction|]. lia.
+      apply IH; [eapply stepok_chain; eassumption| exact Ho0 | intros _; lia |].
+      intros Hn2. destruct (stepok_nz _ _ Hmo2 Hn2). lia.
   Qed.
 
   Lemma do_math_post : forall st, Inv st -> ps_fm st = tpp_MathID -> post (stepped st) (do_math numf w content st).
@@ -335,20 +350,24 @@ Section Safety.
     intros st HI Hk.
     assert (Hm : ps_fm st <> 0%N) by (rewrite Hk; discriminate).
     destruct (inv_parts st HI Hm) as (Hfo & Htl & _ & Hs1 & Hs2 & Hs3). rewrite Hk in Htl. cbn in Htl.
+    pose proof (inv_chain st HI) as Hch.
     unfold do_math.
     pbind (stepok (ps_fo st)); [apply good_post, fnext_good|]. intros mo Hmo.
     pbind (fun r : nat * (N * nat) => stepok (ps_fo st) (snd r) /\ (fst r = 0 \/ (1 <= fst r /\ fst r <= len))).
-    { apply good_post, math_scan_good; [exact Hmo|exact Hfo|lia|].
-      intros Hn. destruct Hmo as (_ & _ & [[Hz _]|Hc]); [contradiction|]. lia. }
+    { apply good_post. eapply good_weaken with (P := fun r : nat * (N * nat) => stepok (ps_fo st) (snd r) /\
+          (fst r = 0 \/ (1 <= fst r /\ fst r <= len /\ ps_fo st <= fst r /\ fnext w content (fst r) = Ok (snd r)))).
+      2:{ intros r [R1 R2]. split; [exact R1|]. destruct R2 as [R2|R2]; [left; exact R2|right; lia]. }
+      apply math_scan_good; [exact Hmo|exact Hfo|lia|].
+      intros Hn. destruct Hmo as (_ & _ & [[Hz _]|Hc] & _); [contradiction|]. lia. }
     intros [eo mo'] [Hmo' He]. cbn [fst snd] in *.
     destruct (Nat.eqb_spec eo 0) as [E0|E0].
-    - cbn [post]. unfold with_finder. apply stepped_with_finder with (o := ps_fo st); [lia|exact Hmo'|repeat split; assumption].
+    - cbn [post]. unfold with_finder. apply stepped_with_finder with (o := ps_fo st); [lia|exact Hmo'|repeat split; assumption|exact (inv_chainok st HI)].
     - destruct He as [He|He]; [contradiction|].
       pbind (fun _ : nat => True); [apply good_post; eapply good_weaken; [apply csub_good; unfold tpp_MathPrefixLength; lia|auto]|]. intros o _.
       pbind (fun e1 => e1 = eo - tpp_InLineSuffixLength); [apply good_post, csub_good; unfold tpp_InLineSuffixLength; lia|]. intros e1 ->.
-      pbind (fun _ : list qexpr => True); [apply pexpr_post; left; unfold tpp_InLineSuffixLength; lia|]. intros ex _.
+      pbind (fun _ : list qexpr => True); [apply pexpr_post; [exact Hch|left; unfold tpp_InLineSuffixLength; lia]|]. intros ex _.
       cbn [post]. unfold with_finder, with_cur. cbn [ps_stack ps_cur ps_child ps_chain].
-      apply stepped_with_finder with (o := ps_fo st); [lia|exact Hmo'|].
+      apply stepped_with_finder with (o := ps_fo st); [lia|exact Hmo'| |exact (inv_chainok st HI)].
       repeat split; try assumption. apply Forall_snoc. split; [assumption|exact I].
   Qed.
 
@@ -367,6 +386,7 @@ Section Safety.
     intros st HI Hk.
     assert (Hm : ps_fm st <> 0%N) by (rewrite Hk; discriminate).
     destruct (inv_parts st HI Hm) as (Hfo & Htl & _ & Hs1 & Hs2 & Hs3). rewrite Hk in Htl. cbn in Htl.
+    pose proof (inv_chain st HI) as Hch.
     unfold do_svar.
     pbind (fun _ : nat => True); [apply good_post; eapply good_weaken; [apply csub_good; unfold tpp_SuperVariablePrefixLength; lia|auto]|]. intros so _.
     pbind (stepok (ps_fo st)); [apply good_post, fnext_good|]. intros mo Hmo.
@@ -375,19 +395,12 @@ Section Safety.
     pbind (fun _ : nat => True); [apply good_post; eapply good_weaken; [apply csub_good; lia|auto]|]. intros d _.
     unfold with_finder. cbn [ps_stack ps_cur ps_child ps_chain].
     destruct (N.eqb (t8 d) 0); cbn [post]; unfold push_tag; cbn [ps_fo ps_fm ps_stack ps_cur].
-    - apply stepped_with_finder with (o := ps_fo st); [lia|exact Hmo|repeat split; assumption].
-    - apply stepped_with_finder with (o := ps_fo st); [lia|exact Hmo|].
+    - apply stepped_with_finder with (o := ps_fo st); [lia|exact Hmo|repeat split; assumption|exact (inv_chainok st HI)].
+    - apply stepped_with_finder with (o := ps_fo st); [lia|exact Hmo| |apply chainok_push; [exact (inv_chainok st HI)|discriminate]].
       apply structok_push; [repeat split; assumption|exact I|exact I].
   Qed.
 
   (* ---- inline if ---- *)
-  Lemma stepok_chain : forall o0 mo1 mo2, stepok o0 mo1 -> stepok (snd mo1) mo2 -> o0 <= len -> stepok o0 mo2.
-  Proof.
-    intros o0 mo1 mo2 (Ha & Hb & Hc) (Ha' & Hb' & Hc') Ho.
-    split; [lia|split; [intros; apply Hb'; apply Hb; assumption|]].
-    destruct Hc' as [Hz|Hn]; [left; exact Hz|right; lia].
-  Qed.
-
   Lemma iif_case_scan_good : forall fuel o0 quote offset mo,
     stepok o0 mo -> o0 <= len -> offset <= snd mo ->
     (fst mo = 0%N -> 1 <= fuel) -> (fst mo <> 0%N -> 2 + (len - snd mo) <= fuel) ->
@@ -400,7 +413,7 @@ Section Safety.
     cbn [iif_case_scan].
     destruct (N.eqb_spec (fst mo) 0) as [Ez|Ez]; [cbn; split; [exact Hmo|split; [lia|intros H; contradiction]]|].
     specialize (Hf1 Ez).
-    assert (Hb : snd mo <= len) by (destruct Hmo as (_ & _ & [[Hz _]|Hc]); [contradiction|lia]).
+    assert (Hb : snd mo <= len) by (destruct Hmo as (_ & _ & [[Hz _]|Hc] & _); [contradiction|lia]).
     gbind (fun o => offset <= o /\ (o <= snd mo \/ o = offset)); [apply skip_ne_good; exact Hb|]. intros o1 Ho1.
     destruct (Nat.ltb_spec o1 (snd mo)) as [Hlt|Hge]; [cbn; split; [exact Hmo|split; [lia|intros; lia]]|].
     gbind (stepok (snd mo)); [apply fnext_good|]. intros mo1 Hmo1.
@@ -409,13 +422,13 @@ Section Safety.
     - gbind (stepok (snd mo1)); [apply fnext_good|]. intros mo2 Hmo2.
       assert (Hc2 : stepok o0 mo2) by (eapply stepok_chain; eassumption).
       assert (Hlt1 : snd mo < snd mo1).
-      { destruct Hmo1 as (_ & _ & [[Hz _]|Hc]); [rewrite Hz in E; discriminate E|]. lia. }
+      { destruct Hmo1 as (_ & _ & [[Hz _]|Hc] & _); [rewrite Hz in E; discriminate E|]. lia. }
       eapply good_weaken; [apply (IH o0 quote o1 mo2); [exact Hc2|exact Ho0| |intros _; lia|]|].
       + destruct Hmo2 as (H & _). lia.
-      + intros Hn2. destruct Hmo2 as (_ & _ & [[Hz _]|Hc]); [contradiction|]. lia.
+      + intros Hn2. destruct Hmo2 as (_ & _ & [[Hz _]|Hc] & _); [contradiction|]. lia.
       + intros [[off' mtch] mo'] (H1 & H2 & H3). split; [exact H1|split; [lia|exact H3]].
     - cbn. split; [exact Hc1|split; [lia|]]. intros Hn.
-      destruct Hmo1 as (_ & _ & [[Hz _]|Hc]); [contradiction|]. lia.
+      destruct Hmo1 as (_ & _ & [[Hz _]|Hc] & _); [contradiction|]. lia.
   Qed.
 
   Lemma do_iif_post : forall st, Inv st -> ps_fm st = tpp_InLineIfID -> post (stepped st) (do_iif numf w content st).
@@ -424,12 +437,13 @@ Section Safety.
     assert (Hm : ps_fm st <> 0%N) by (rewrite Hk; discriminate).
     destruct (inv_parts st HI Hm) as (Hfo & Htl & _ & Hs1 & Hs2 & Hs3). rewrite Hk in Htl. cbn in Htl.
     assert (Hst : structok (ps_fo st) (ps_stack st) (ps_cur st)) by (repeat split; assumption).
+    pose proof (inv_chain st HI) as Hch.
     unfold do_iif.
     pbind (fun d => d = ps_fo st - tpp_InLineIfPrefixLength); [apply good_post, csub_good; unfold tpp_InLineIfPrefixLength; lia|]. intros io ->.
     pbind (stepok (ps_fo st)); [apply good_post, fnext_good|]. intros mo Hmo.
     assert (Hend : snd mo <= len) by (destruct Hmo as (_ & H & _); auto).
     assert (Hplain : stepped st (with_finder st mo)).
-    { unfold with_finder. apply stepped_with_finder with (o := ps_fo st); [lia|exact Hmo|exact Hst]. }
+    { unfold with_finder. apply stepped_with_finder with (o := ps_fo st); [lia|exact Hmo|exact Hst|exact (inv_chainok st HI)]. }
     pbind (fun o => ps_fo st <= o); [apply good_post; eapply good_weaken; [apply skip_eq_good; exact Hend|cbn; intros; lia]|]. intros o1 Ho1.
     pbind (fun _ : bool => True).
     { destruct (o1 <? snd mo); [apply good_post, word_at_good; exact Hend|exact I]. }
@@ -441,44 +455,65 @@ Section Safety.
     pbind (fun r : nat * N * (N * nat) => let '(off', mtch, mo') := r in
              stepok (ps_fo st) mo' /\ S o3 <= off' /\ (mtch <> 0%N -> off' < len)).
     { apply good_post, iif_case_scan_good; [exact Hmo|exact Hfo|lia|lia|].
-      intros Hn. destruct Hmo as (_ & _ & [[Hz _]|Hc]); [contradiction|]. lia. }
+      intros Hn. destruct Hmo as (_ & _ & [[Hz _]|Hc] & _); [contradiction|]. lia. }
     intros [[off' mtch] mo'] (Hmo' & Hoff' & Hlen').
     destruct (N.eqb_spec mtch 0) as [Ez|Ez].
-    - cbn [post]. unfold with_finder. apply stepped_with_finder with (o := ps_fo st); [lia|exact Hmo'|exact Hst].
+    - cbn [post]. unfold with_finder. apply stepped_with_finder with (o := ps_fo st); [lia|exact Hmo'|exact Hst|exact (inv_chainok st HI)].
     - specialize (Hlen' Ez).
-      pbind (fun _ : list qexpr => True); [apply pexpr_post; left; exact Hlen'|]. intros ex _.
+      pbind (fun _ : list qexpr => True); [apply pexpr_post; [exact Hch|left; exact Hlen']|]. intros ex _.
       pbind (fun _ : nat => True); [apply good_post; eapply good_weaken; [apply csub_good; lia|auto]|]. intros d _.
       cbn [post]. unfold push_tag, with_finder. cbn [ps_fo ps_fm ps_stack ps_cur ps_child ps_chain].
-      apply stepped_with_finder with (o := ps_fo st); [lia|exact Hmo'|].
+      apply stepped_with_finder with (o := ps_fo st); [lia|exact Hmo'| |apply chainok_push; [exact (inv_chainok st HI)|discriminate]].
       apply structok_push; [exact Hst|cbn; lia|exact I].
   Qed.
 
   (* ---- loop ---- *)
-  Lemma do_loop_post : forall st, Inv st -> ps_fm st = tpp_LoopID -> post (stepped st) (do_loop w content st).
+Lemma do_loop_post : forall st, Inv st -> ps_fm st = tpp_LoopID -> post (stepped st) (do_loop w content st).
   Proof.
     intros st HI Hk.
     assert (Hm : ps_fm st <> 0%N) by (rewrite Hk; discriminate).
     destruct (inv_parts st HI Hm) as (Hfo & Htl & _ & Hs1 & Hs2 & Hs3). rewrite Hk in Htl. cbn in Htl.
     assert (Hst : structok (ps_fo st) (ps_stack st) (ps_cur st)) by (repeat split; assumption).
+    pose proof (inv_chain st HI) as Hch.
+    pose proof (inv_headfree st HI Hm Hk) as Hhead.
     unfold do_loop.
     pbind (fun d => d = ps_fo st - tpp_LoopPrefixLength); [apply good_post, csub_good; unfold tpp_LoopPrefixLength; lia|]. intros lo ->.
-    pbind (stepok (ps_fo st)); [apply good_post, fnext_good|]. intros mo Hmo.
+    pbind (fun mo => stepok (ps_fo st) mo /\ onlybrace (ps_fo st) mo); [apply good_post, fnext_good2|]. intros mo [Hmo Honly].
     assert (Hend : snd mo <= len) by (destruct Hmo as (_ & H & _); auto).
-    pbind (fun o => ps_fo st <= o); [apply good_post; eapply good_weaken; [apply skip_ne_good; exact Hend|cbn; intros; lia]|]. intros o1 Ho1.
+    unfold skip_ne.
+    destruct (skip_while content 106 (fun ch => negb (N.eqb ch tpp_MultiLineLastChar)) (snd mo - ps_fo st) (ps_fo st) (snd mo))
+      as [o1|err] eqn:Esk.
+    2:{ exfalso. pose proof (skip_while_good content 106 (fun ch => negb (N.eqb ch tpp_MultiLineLastChar))
+                    (snd mo - ps_fo st) (ps_fo st) (snd mo) Hend (Nat.le_refl _)) as G. rewrite Esk in G. exact G. }
+    cbn [bind].
+    assert (Ho1 : ps_fo st <= o1).
+    { pose proof (skip_while_good content 106 (fun ch => negb (N.eqb ch tpp_MultiLineLastChar))
+                    (snd mo - ps_fo st) (ps_fo st) (snd mo) Hend (Nat.le_refl _)) as G. rewrite Esk in G. cbn in G. lia. }
     destruct (Nat.ltb_spec o1 (snd mo)) as [Hlt|Hge].
-    - pbind (fun _ : looprec => True); [eapply post_weaken; [apply parse_loop_attributes_post; lia|auto]|]. intros l1 _.
+    - (* the head [fo - 5, o1) holds neither '>' nor '}', and '>' stands at o1 *)
+      assert (Hgt : nth_error content o1 = Some 62%N).
+      { destruct (skip_while_stop _ _ _ _ _ _ _ Esk Hlt) as (ch & Hch1 & Hp).
+        apply negb_false_iff, N.eqb_eq in Hp. rewrite Hp in Hch1. exact Hch1. }
+      assert (Hclean : forall i, ps_fo st - tpp_LoopPrefixLength <= i < o1 -> exists c, nth_error content i = Some c /\ clean c).
+      { intros i Hi. destruct (Nat.lt_ge_cases i (ps_fo st)) as [Hlo|Hhi].
+        - apply Hhead. unfold tpp_LoopPrefixLength in Hi. lia.
+        - destruct (skip_while_all _ _ _ _ _ _ _ Esk i) as (ch & Hc1 & Hc2); [lia|].
+          exists ch. split; [exact Hc1|]. split.
+          + apply negb_true_iff, N.eqb_neq in Hc2. exact Hc2.
+          + intros E125. subst ch. destruct (Honly i) as [_ E2]; [lia|exact Hc1|]. lia. }
+      pbind (fun l' => lsame (mkL (ps_fo st - tpp_LoopPrefixLength) 0 0 0 0 0 0 0 (t8 (length (ps_stack st))) (mkV 0 0 0 0) (ps_chain st)) l' /\
+                       vreg o1 l').
+      { apply parse_loop_attributes_post; [lia|exact Hch|exact Hgt|]. unfold vreg. cbn. lia. }
+      intros l1 [(E1 & E2 & E3 & E4 & E5) Hv1]. cbn [l_off l_end l_coff l_level l_parent] in *.
       pbind (fun _ : nat => True); [apply good_post; eapply good_weaken; [apply csub_good; unfold tpp_LoopPrefixLength; lia|auto]|]. intros d _.
       cbn [post]. unfold push_tag, with_finder. cbn [ps_fo ps_fm ps_stack ps_cur ps_child ps_chain].
-      apply stepped_with_finder with (o := ps_fo st); [lia|exact Hmo|].
-      apply structok_push; [exact Hst|exact I|exact I].
-    - cbn [post]. unfold with_finder. apply stepped_with_finder with (o := ps_fo st); [lia|exact Hmo|exact Hst].
+      apply stepped_with_finder with (o := ps_fo st); [lia|exact Hmo| |].
+      + apply structok_push; [exact Hst|cbn [container_ok l_parent]; rewrite E5; exact Hch|exact I].
+      + apply chainok_push_loop; [exact (inv_chainok st HI)|cbn [l_parent]; exact E5|].
+        unfold li_ok, info_of. cbn [li_off li_voff li_vlen l_off l_voff l_vlen].
+        intros k Hk1. unfold vreg in Hv1. rewrite E1 in *. apply Hclean. lia.
+    - cbn [post]. unfold with_finder. apply stepped_with_finder with (o := ps_fo st); [lia|exact Hmo|exact Hst|exact (inv_chainok st HI)].
   Qed.
-
-  Definition rested (st st1 : pstate) : Prop :=
-    structok (ps_fo st1) (ps_stack st1) (ps_cur st1) /\ ps_fo st <= ps_fo st1.
-
-  Lemma rested_refl : forall st, Inv st -> rested st st.
-  Proof. intros st [_ H]. split; [exact H|lia]. Qed.
 
   Lemma do_loop_end_post : forall st, Inv st -> ps_fm st = tpp_LoopEndID -> post (rested st) (do_loop_end st).
   Proof.
@@ -486,13 +521,14 @@ Section Safety.
     assert (Hm : ps_fm st <> 0%N) by (rewrite Hk; discriminate).
     destruct (inv_parts st HI Hm) as (Hfo & Htl & _ & Hs1 & Hs2 & Hs3). rewrite Hk in Htl. cbn in Htl.
     unfold do_loop_end.
-    destruct (ps_chain st) as [|li chain]; [apply rested_refl; exact HI|].
+    pose proof (inv_chainok st HI) as Hck.
+    destruct (ps_chain st) as [|li chain] eqn:Ech; [apply rested_refl; exact HI|].
     destruct (ps_stack st) as [|top rest] eqn:Est; [apply rested_refl; exact HI|].
     inversion Hs1 as [|? ? (init & t & Et & Hc) Hr1]; subst. inversion Hs2 as [|? ? Hl Hr2]; subst.
     rewrite split_last_app. apply Forall_snoc in Hl. destruct Hl as [Hli _].
     destruct t as [| | | | |l sb|]; try (apply rested_refl; exact HI).
     pbind (fun _ : nat => True); [apply good_post; eapply good_weaken; [apply csub_good; unfold tpp_LoopSuffixLength; lia|auto]|]. intros e _.
-    cbn [post]. unfold rested. cbn [ps_fo ps_stack ps_cur]. split; [|lia].
+    cbn [post]. unfold rested. cbn [ps_fo ps_stack ps_cur ps_chain]. split; [|split; [lia|eapply chainok_pop_loop; exact Hck]].
     repeat split; try assumption.
     match goal with |- Forall _ (if ?c then _ else _) => destruct c end; [exact Hli|].
     apply Forall_snoc. split; [exact Hli|exact I].
@@ -505,19 +541,20 @@ Section Safety.
     assert (Hm : ps_fm st <> 0%N) by (rewrite Hk; discriminate).
     destruct (inv_parts st HI Hm) as (Hfo & Htl & _ & Hs1 & Hs2 & Hs3). rewrite Hk in Htl. cbn in Htl.
     assert (Hst : structok (ps_fo st) (ps_stack st) (ps_cur st)) by (repeat split; assumption).
+    pose proof (inv_chain st HI) as Hch.
     unfold do_if.
     pbind (fun _ : nat => True); [apply good_post; eapply good_weaken; [apply csub_good; unfold tpp_IfPrefixLength; lia|auto]|]. intros io _.
     pbind (fun r : nat * nat * nat => let '(o, co, ce) := r in ps_fo st <= o /\ (o < len -> ce < len));
       [apply good_post, parse_if_case_good|].
     intros [[o co] ce] [Ho Hce].
-    pbind (fun st1 => ps_fo st1 = ps_fo st /\ structok (ps_fo st) (ps_stack st1) (ps_cur st1)).
-    { destruct (Nat.ltb_spec o len) as [Hlt|Hge]; [|cbn; split; [reflexivity|exact Hst]].
-      pbind (fun _ : list qexpr => True); [apply pexpr_post; left; auto|]. intros ex _.
-      cbn [post]. unfold push_tag. cbn [ps_fo ps_stack ps_cur]. split; [reflexivity|].
+    pbind (fun st1 => chainok (ps_stack st1) (ps_chain st1) /\ structok (ps_fo st) (ps_stack st1) (ps_cur st1)).
+    { destruct (Nat.ltb_spec o len) as [Hlt|Hge]; [|cbn; split; [exact (inv_chainok st HI)|exact Hst]].
+      pbind (fun _ : list qexpr => True); [apply pexpr_post; [exact Hch|left; auto]|]. intros ex _.
+      cbn [post]. unfold push_tag. cbn [ps_chain ps_stack ps_cur]. split; [apply chainok_push; [exact (inv_chainok st HI)|discriminate]|].
       apply structok_push; [exact Hst|cbn; discriminate|exact I]. }
-    intros st1 [Hfo1 Hst1].
+    intros st1 [Hch1 Hst1].
     pbind (stepok o); [apply good_post, fnext_good|]. intros mo Hmo.
-    cbn [post]. unfold with_finder. apply stepped_with_finder with (o := o); [lia|exact Hmo|].
+    cbn [post]. unfold with_finder. apply stepped_with_finder with (o := o); [lia|exact Hmo| |exact Hch1].
     eapply structok_mono; [|exact Hst1]. lia.
   Qed.
 
@@ -539,9 +576,10 @@ Section Safety.
     inversion Hs1 as [|? ? (init & t & Et & Hc) Hr1]; subst. inversion Hs2 as [|? ? Hl Hr2]; subst.
     rewrite split_last_app. apply Forall_snoc in Hl. destruct Hl as [Hli _].
     destruct t as [| | | | | |o eo cases]; try (apply rested_refl; exact HI).
-    cbn in Hc. destruct (cases_split cases Hc) as (ci & co & ce & cc & sb & E). rewrite E.
+    cbn [container_ok] in Hc. destruct (cases_split cases Hc) as (ci & co & ce & cc & sb & E). rewrite E.
     pbind (fun _ : nat => True); [apply good_post; eapply good_weaken; [apply csub_good; unfold tpp_IfSuffixLength; lia|auto]|]. intros e _.
-    cbn [post]. unfold rested. cbn [ps_fo ps_stack ps_cur]. split; [|lia].
+    cbn [post]. unfold rested. cbn [ps_fo ps_stack ps_cur ps_chain]. split; [|split; [lia|]].
+    2:{ pose proof (inv_chainok st HI) as Hck. rewrite Est in Hck. eapply chainok_pop; [exact Hck|discriminate]. }
     repeat split; try assumption. apply Forall_snoc. split; [exact Hli|exact I].
   Qed.
 
@@ -564,21 +602,22 @@ Section Safety.
     assert (Hm : ps_fm st <> 0%N) by (rewrite Hk; discriminate).
     destruct (inv_parts st HI Hm) as (Hfo & Htl & _ & Hs1 & Hs2 & Hs3). rewrite Hk in Htl. cbn in Htl.
     unfold do_else.
-    destruct (ps_stack st) as [|top rest] eqn:Est; [cbn; apply rested_refl; exact HI|].
+    pose proof (inv_chain st HI) as Hch. pose proof (inv_chainok st HI) as Hck.
+    destruct (ps_stack st) as [|top rest] eqn:Est; [cbn [post fst snd]; apply rested_refl; exact HI|].
     inversion Hs1 as [|? ? (init & t & Et & Hc) Hr1]; subst. inversion Hs2 as [|? ? Hl Hr2]; subst.
     rewrite split_last_app. apply Forall_snoc in Hl. destruct Hl as [Hli _].
-    destruct t as [| | | | | |o eo cases]; try (cbn; apply rested_refl; exact HI).
-    cbn in Hc. destruct (cases_split cases Hc) as (ci & co & ce & cc & sb & E). rewrite E.
+    destruct t as [| | | | | |o eo cases]; try (cbn [post fst snd]; apply rested_refl; exact HI).
+    cbn [container_ok] in Hc. destruct (cases_split cases Hc) as (ci & co & ce & cc & sb & E). rewrite E.
     pbind (fun _ : nat => True); [apply good_post; eapply good_weaken; [apply csub_good; unfold tpp_ElsePrefixLength; lia|auto]|]. intros e _.
     assert (Hbad : forall fo fm, ps_fo st <= fo ->
               rested st (mkS fo fm rest init (ps_child st) (ps_chain st))).
-    { intros fo fm Hle. unfold rested. cbn [ps_fo ps_stack ps_cur]. split; [|exact Hle].
+    { intros fo fm Hle. unfold rested. cbn [ps_fo ps_stack ps_cur ps_chain]. split; [|split; [exact Hle|eapply chainok_pop; [exact Hck|discriminate]]].
       eapply structok_mono; [exact Hle|]. repeat split; assumption. }
     assert (Hopen : forall coff ex oo mo, ps_fo st <= oo -> stepok oo mo ->
               stepped st (mkS (snd mo) (fst mo)
                  ((init ++ [PIf o eo ((ci ++ [PCase co e cc (ps_cur st)]) ++ [PCase coff 0 ex []])]) :: rest) []
                  (ps_child st) (ps_chain st))).
-    { intros coff ex oo mo Hle Hmo. apply stepped_with_finder with (o := oo); [exact Hle|exact Hmo|].
+    { intros coff ex oo mo Hle Hmo. apply stepped_with_finder with (o := oo); [exact Hle|exact Hmo| |eapply chainok_swap; [exact Hck|discriminate|discriminate]].
       eapply structok_mono; [exact Hle|]. repeat split.
       - constructor; [|exact Hr1]. eexists init, _. split; [reflexivity|]. cbn. intros Hn. apply app_eq_nil in Hn. destruct Hn as [_ Hn]. discriminate Hn.
       - constructor; [|exact Hr2]. apply Forall_snoc. split; [exact Hli|exact I].
@@ -591,7 +630,7 @@ Section Safety.
       pbind (stepok o'); [apply good_post, fnext_good|]. intros mo Hmo.
       destruct (Nat.ltb_spec o' len) as [Hlt|Hge]; cbn [andb].
       + destruct (negb (ce' =? 0)).
-        * pbind (fun _ : list qexpr => True); [apply pexpr_post; left; auto|]. intros ex _.
+        * pbind (fun _ : list qexpr => True); [apply pexpr_post; [exact Hch|left; auto]|]. intros ex _.
           cbn [post fst snd]. apply Hopen with (oo := o'); [lia|exact Hmo].
         * cbn [post fst snd]. apply Hbad. destruct Hmo as [H _]. lia.
       + cbn [post fst snd]. apply Hbad. destruct Hmo as [H _]. lia.
@@ -605,12 +644,17 @@ Section Safety.
   Lemma finalize_iif_good : forall fo rest init i c subs chain,
     fo <= len -> i_off i <= fo ->
     Forall (open_ok fo) rest -> Forall (Forall leaf_ok) rest -> Forall leaf_ok init -> Forall leaf_ok subs ->
-    good (fun st1 => structok fo (ps_stack st1) (ps_cur st1) /\ ps_fo st1 = fo)
+    chainok rest chain ->
+    good (fun st1 => structok fo (ps_stack st1) (ps_cur st1) /\ ps_fo st1 = fo /\ chainok (ps_stack st1) (ps_chain st1))
          (finalize_iif content fo rest init i c subs chain).
   Proof.
-    intros fo rest init i c subs chain Hfo Hi Hr1 Hr2 Hinit Hsubs. unfold finalize_iif.
+    intros fo rest init i c subs chain Hfo Hi Hr1 Hr2 Hinit Hsubs Hck. unfold finalize_iif.
+    assert (Hckp : forall i', chainok ((init ++ [PIIf i' c subs]) :: rest) chain)
+      by (intros i'; apply chainok_push; [exact Hck|discriminate]).
     gbind (fun _ : nat => True); [eapply good_weaken; [apply csub_good; exact Hi|auto]|]. intros d _.
     set (i1 := mkI (i_off i) (t16 d) 0 (i_tlen i) (i_foff i) (i_flen i) (i_tid i) (i_fid i)).
+    destruct (N.ltb 65535 (N.of_nat d)).
+    { cbn [good ps_stack ps_cur ps_fo ps_chain]. split; [repeat split; assumption|split; [reflexivity|exact Hck]]. }
     gbind (fun r : iifrec * bool => isame i1 (fst r)).
     { apply iif_attrs_good; [exact Hfo|cbn; lia|lia]. }
     intros [i2 repush] [Eoff _]. cbn [fst snd] in *. cbn in Eoff.
@@ -628,8 +672,12 @@ Section Safety.
               (ps_cur (if repush then mkS fo 0 ((init ++ [PIIf i2 c subs]) :: rest) (removelast subs) true chain
                        else mkS fo 0 rest init false chain)) /\
             ps_fo (if repush then mkS fo 0 ((init ++ [PIIf i2 c subs]) :: rest) (removelast subs) true chain
-                   else mkS fo 0 rest init false chain) = fo).
-    { destruct repush; cbn [ps_stack ps_cur ps_fo]; (split; [|reflexivity]).
+                   else mkS fo 0 rest init false chain) = fo /\
+            chainok (ps_stack (if repush then mkS fo 0 ((init ++ [PIIf i2 c subs]) :: rest) (removelast subs) true chain
+                   else mkS fo 0 rest init false chain))
+                    (ps_chain (if repush then mkS fo 0 ((init ++ [PIIf i2 c subs]) :: rest) (removelast subs) true chain
+                   else mkS fo 0 rest init false chain))).
+    { destruct repush; cbn [ps_stack ps_cur ps_fo ps_chain]; (split; [|split; [reflexivity|auto]]).
       - apply Hpush; [exact Eoff|apply Forall_removelast; exact Hsubs].
       - apply Hplain; exact Hinit. }
     destruct (negb (N.eqb (i_toff i2) 0) || negb (N.eqb (i_foff i2) 0)); [|exact Hdropped].
@@ -639,7 +687,7 @@ Section Safety.
       generalize dependent i3 end.
     intros i3 E3.
     gbind (fun _ : bool => True); [apply sub_tags_valid_good; exact Hsubs|]. intros ok _.
-    destruct ok; destruct repush; cbn [good ps_stack ps_cur ps_fo]; (split; [|reflexivity]).
+    destruct ok; destruct repush; cbn [good ps_stack ps_cur ps_fo ps_chain]; (split; [|split; [reflexivity|auto]]).
     - apply Hpush; [exact E3|exact Hsubs].
     - apply Hplain. apply Forall_snoc. split; [exact Hinit|exact I].
     - apply Hpush; [exact E3|apply Forall_removelast; exact Hsubs].
@@ -657,16 +705,17 @@ Section Safety.
     inversion Hs1 as [|? ? (init & t & Et & Hc) Hr1]; subst. inversion Hs2 as [|? ? Hl Hr2]; subst.
     apply Forall_snoc in Hl. destruct Hl as [Hli _].
     rewrite (writeback_good 1 (ps_fo st) init t (ps_cur st) Hc). cbn [bind]. rewrite split_last_app.
-    assert (Hrest : forall cur', Forall leaf_ok cur' ->
-              rested st (mkS (ps_fo st) 0 rest cur' false (ps_chain st))).
-    { intros cur' Hc'. unfold rested. cbn [ps_fo ps_stack ps_cur]. split; [|lia]. repeat split; assumption. }
-    destruct t as [| | |o e v sb|i c sb|l sb|o eo cases]; cbn in Hc; try contradiction; cbn [plug].
-    - cbn [post]. apply Hrest. apply Forall_snoc. split; [exact Hli|exact I].
-    - apply good_post. eapply good_weaken; [apply finalize_iif_good; try assumption|].
-      intros st1 [H1 H2]. unfold rested. rewrite H2. split; [exact H1|lia].
-    - cbn [post]. apply Hrest. apply Forall_snoc. split; [exact Hli|exact I].
+    pose proof (inv_chainok st HI) as Hck. rewrite Est in Hck.
+    assert (Hrest : forall cur' chain', Forall leaf_ok cur' -> chainok rest chain' ->
+              rested st (mkS (ps_fo st) 0 rest cur' false chain')).
+    { intros cur' chain' Hc' Hk'. unfold rested. cbn [ps_fo ps_stack ps_cur ps_chain]. split; [|split; [lia|exact Hk']]. repeat split; assumption. }
+    destruct t as [| | |o e v sb|i c sb|l sb|o eo cases]; cbn [container_ok] in Hc; try contradiction; cbn [plug].
+    - cbn [post]. apply Hrest; [apply Forall_snoc; split; [exact Hli|exact I]|eapply chainok_pop; [exact Hck|discriminate]].
+    - apply good_post. eapply good_weaken; [apply finalize_iif_good; try assumption; eapply chainok_pop; [exact Hck|discriminate]|].
+      intros st1 (H1 & H2 & H3). unfold rested. rewrite H2. split; [exact H1|split; [lia|exact H3]].
+    - cbn [post]. apply Hrest; [apply Forall_snoc; split; [exact Hli|exact I]|eapply chainok_pop_loop; exact Hck].
     - destruct (cases_split cases Hc) as (ci & co & ce & cc & sb & E). rewrite E.
-      cbn [post]. apply Hrest. apply Forall_snoc. split; [exact Hli|exact I].
+      cbn [post]. apply Hrest; [apply Forall_snoc; split; [exact Hli|exact I]|eapply chainok_pop; [exact Hck|discriminate]].
   Qed.
 
   (* ---- one iteration ---- *)
@@ -711,43 +760,61 @@ Section Safety.
     unfold parse_state.
     pbind (stepok 0); [apply good_post, fnext_good|]. intros mo Hmo.
     apply main_loop_post.
-    - split; [eapply stepok_finok; exact Hmo|]. cbn [ps_fo ps_stack ps_cur]. repeat split; constructor.
+    - split; [eapply stepok_finok; exact Hmo|]. cbn [ps_fo ps_stack ps_cur ps_chain]. repeat split; constructor.
     - cbn [ps_fo ps_fm]. intros _. lia.
   Qed.
 
-  (* C01, parser: for every text, width and number scanner the parser model returns a tree, or stops
-     with the one error this development does not exclude: EOob 10, an out-of-range read by the
-     IsEqual of checkLoopVariable.  In particular: no other out-of-bounds read of the text (the
-     Finder, the skip loops, the word tests, parseIfCase, parseLoopAttributes, the inline-if attribute
-     scanner, getOperation's one-unit look-ahead, isExpression, TrimLeft/TrimRight, parseValue), no
-     Last() of an empty array, no tag record read as another kind, no unsigned subtraction below zero,
-     and no fuel exhaustion (termination: at most length + 2 iterations of the main loop). *)
-  Theorem parse_gen_safe_partial : forall e, parse_gen numf w content = Error e -> e = EOob 10.
+(* C01, parser: for EVERY text, width and number scanner the parser model returns a tree: no
+     out-of-bounds read of the text (Finder, skip loops, word tests, parseIfCase, parseLoopAttributes,
+     the inline-if attribute scanner, getOperation's one-unit look-ahead, isExpression, TrimLeft /
+     TrimRight, parseValue, the IsEqual of checkLoopVariable), no Last() of an empty array, no tag
+     record read as another kind, no unsigned subtraction below zero, and no fuel exhaustion
+     (termination: at most length + 2 iterations of the main loop). *)
+  Theorem parse_gen_safe : exists l, parse_gen numf w content = Ok l.
   Proof.
-    intros e H. unfold parse_gen in H.
+    unfold parse_gen.
     pose proof parse_state_post as P. destruct (parse_state numf w content) as [st|e']; cbn in *.
-    - discriminate H.
-    - injection H as <-. exact P.
+    - eexists; reflexivity.
+    - destruct P.
+  Qed.
+
+  (* the state in which the main loop ends satisfies the invariant *)
+  Theorem parse_state_inv : exists st, parse_state numf w content = Ok st /\ Inv st /\ ps_fm st = 0%N.
+  Proof.
+    pose proof parse_state_post as P. destruct (parse_state numf w content) as [st|e']; cbn in *.
+    - exists st. split; [reflexivity|exact P].
+    - destruct P.
   Qed.
 End Safety.
 
-Theorem parse_safe_partial : forall w content e, parse_model w content = Error e -> e = EOob 10.
-Proof. intros w content e. apply parse_gen_safe_partial. Qed.
+Theorem parse_safe : forall w content e, parse_model w content <> Error e.
+Proof.
+  intros w content e H. destruct (parse_gen_safe numf_digit w content) as [l Hl].
+  unfold parse_model in H. rewrite Hl in H. discriminate H.
+Qed.
 
-(* the errors excluded outright *)
-Corollary parse_no_fuel : forall w content, parse_model w content <> Error EFuel.
-Proof. intros w content H. apply parse_safe_partial in H. discriminate H. Qed.
-Corollary parse_no_empty_last : forall w content s, parse_model w content <> Error (EEmpty s).
-Proof. intros w content s H. apply parse_safe_partial in H. discriminate H. Qed.
-Corollary parse_no_kind_confusion : forall w content s, parse_model w content <> Error (EKind s).
-Proof. intros w content s H. apply parse_safe_partial in H. discriminate H. Qed.
-Corollary parse_no_negative : forall w content s, parse_model w content <> Error (ENeg s).
-Proof. intros w content s H. apply parse_safe_partial in H. discriminate H. Qed.
-Corollary parse_no_oob_but_10 : forall w content s, s <> 10%N -> parse_model w content <> Error (EOob s).
-Proof. intros w content s Hs H. apply parse_safe_partial in H. injection H as H. contradiction. Qed.
+Corollary parse_total : forall w content, exists l, parse_model w content = Ok l.
+Proof. intros w content. apply parse_gen_safe. Qed.
 
-(* non-vacuity: a text on which every case of the switch runs and a tree comes out *)
+(* non-vacuity: a text on which a loop with a value name, two variables and a closing tag are parsed *)
 Example parse_example :
   exists l, parse_model 0 [123;118;97;114;58;97;125; 60;108;111;111;112;32;118;97;108;117;101;61;34;118;34;62;
                            123;118;97;114;58;118;125; 60;47;108;111;111;112;62]%N = Ok l /\ length l = 2.
 Proof. vm_compute. eexists; split; reflexivity. Qed.
+
+(* loop_tag never dangles: in every state of the run (every state satisfying the invariant, which
+   [parse_state_post] / [step_post] establish for the initial state and preserve) the loop_tag chain is
+   exactly the list of the loops whose storage is on the parent_storage stack, and the Parent chain of each
+   of them is the list of the open loops below it.  (With findings/D72; without it the chain can point into
+   a freed LoopTag.) *)
+Theorem chain_is_open_loops : forall content st, Inv content st ->
+  ps_chain st = open_loops (ps_stack st) /\ parents_ok (ps_stack st).
+Proof. intros content st (_ & _ & E & P & _). split; assumption. Qed.
+
+Theorem inv_preserved : forall numf w content st, Inv content st -> ps_fm st <> 0%N ->
+  exists st', step numf w content st = Ok st' /\ Inv content st'.
+Proof.
+  intros numf w content st HI Hm. pose proof (step_post numf w content st HI Hm) as P.
+  destruct (step numf w content st) as [st'|e]; cbn in P; [|destruct P].
+  exists st'. split; [reflexivity|]. destruct P as [H _]. exact H.
+Qed.
